@@ -414,12 +414,28 @@ def verdict(line, io, mo):
             return ("agree", "api:documented-error-for-non-2d-barnes-hut", "")
         return ("fail", "api:throws", "public API throws: " + io)
     fails = []
+    log_broken = None
+    if topic == "run":
+        # the KL values come from the progress log of run(): a log that cannot be read as "Iteration <i>: error is <C>"
+        # at every requested iteration is a broken observation channel — the oracle on those values is not evaluated
+        f = kv(line)
+        o = kv(io)
+        want = len([x for x in f.get("at", "").split(",") if x])
+        got = len([x for x in o.get("snaps", "").split(";") if x])
+        if o.get("logfmt", "ok") != "ok" or got != want:
+            log_broken = ("broken", "obs:run-progress-log",
+                          "the progress log of TSNE::run could not be read at the requested iterations (format %s, %d of %d "
+                          "values): the logged KL error is not observed" % (o.get("logfmt", "?"), got, want))
     for key, sig, what in ORACLES.get(topic, []):
+        if log_broken and key == "spec":
+            continue
         v = m.get(key, "")
         if v.startswith("BAD"):
             fails.append(("fail", sig, what + ": " + v[:260]))
     if fails:
-        return fails
+        return fails + ([log_broken] if log_broken else [])
+    if log_broken:
+        return log_broken
     c = m.get("cmp", "")
     if c.startswith("BAD") or c.startswith("model-ERR") or c.startswith("noobs") or mo.startswith("bad") or mo.startswith("ERR"):
         return ("broken", "corr:" + topic, "model and implementation disagree on %s: %s" % (topic, (c or mo)[:300]))
@@ -502,6 +518,8 @@ def judge(ctx, binary, lines, label, do_shrink=True, timeout=300):
                 ctx.stat("run-iterations-checked-against-%s" % ("specified-step" if k == "step" else "model-step"), int(parts[1]))
                 if int(parts[1]) > 252:
                     ctx.stat("run-exaggeration-and-momentum-switch-steps-checked")
+                if int(parts[1]) >= 1000:
+                    ctx.stat("run-cases-checked-through-the-last-iteration")
                 if len(parts) > 2:
                     ctx.stat("run-step-replay-stopped-at-near-tie")
         if topic == "vps" and "fid" in m:
@@ -592,6 +610,10 @@ def correspond(ctx):
     for name, gen, nq, nt in plan:
         ctx.log("stage", name)
         lines = [gen() for _ in range(nq if quick else nt)]
+        if name in ("run-exact", "run-bh-theta-small"):
+            # the first case(s) of these stages are followed to the last iteration (999) of run(), the others to 260
+            for i in range(1 if quick else 4):
+                lines[i] = lines[i].replace(" upto=260", " upto=999")
         for i in range(0, len(lines), 200):
             judge(ctx, binary, lines[i:i + 200], name)
     # the optimiser of TSNE::run vs the model after 51 iterations (exact branch; the trajectories of such tiny maps are
